@@ -1,6 +1,8 @@
 mod mgr;
 mod leak;
 mod atrest;
+mod conc;
+mod crash;
 mod store;
 mod world;
 
@@ -12,6 +14,8 @@ fn main() {
         Some("world") => world::main(&args[2..]),
         Some("leak") => leak::main(&args[2..]),
         Some("atrest") => atrest::main(&args[2..]),
+        Some("conc") => conc::main(&args[2..]),
+        Some("crash") => crash::main(&args[2..]),
         _ => {
             eprintln!("usage: vh store [--file] < ops");
             2
